@@ -153,7 +153,7 @@ class Origins:
         tgt = call_target(t)
         args = t["args"]
         if tgt is None:
-            return ("call", "<indirect>", tuple(self.operand(body, a, depth, stack) for a in args), (body.id, bb))
+            return ("call", "<indirect>", tuple(self.operand(body, a, depth, stack) for a in args), (body.id, body.orig(bb)))
         if any(is_transparent(n) for n in names) and args:
             return self.operand(body, args[0], depth, stack)
         if names & set(UNWRAP_OK):
@@ -173,8 +173,8 @@ class Origins:
             ret = self.local(callee, 0, depth + 1, stack)
             sub = substitute(ret, callee.id, argt)
             if not has_top(sub) and size(sub) < 60:
-                return ("ret", tgt, sub, (body.id, bb), argt)
-        return ("call", tgt, argt, (body.id, bb))
+                return ("ret", tgt, sub, (body.id, body.orig(bb)), argt)
+        return ("call", tgt, argt, (body.id, body.orig(bb)))
 
     # ---- callers: resolve a param through every call site ----
     def param_sources(self, body_id, idx, depth=0):
@@ -211,6 +211,9 @@ def _dedup(ts):
     return out
 
 
+NEVER = ("never",)
+
+
 def project(term, proj):
     """apply a MIR projection to an origin term"""
     proj = tuple(e for e in proj if e != "*" and e != "oc")
@@ -230,6 +233,10 @@ def project(term, proj):
         if k == "agg" and e.startswith("v:") and e[2:] == term[2]:
             proj = proj[1:]
             continue
+        if k == "agg" and e.startswith("v:") and e[2:] != term[2] and not e.startswith("v:#"):
+            return NEVER  # the payload of another variant: this alternative cannot be the one projected
+        if k == "call" and e in ("v:Ok", "v:Some", "v:Continue") and term[1].endswith("::from_residual"):
+            return NEVER  # from_residual only builds the failure variant
         if k == "tuple" and e.startswith("f:") and e[2:].isdigit() and int(e[2:]) < len(term[1]):
             term, proj = term[1][int(e[2:])], proj[1:]
             continue
@@ -257,7 +264,13 @@ def project(term, proj):
             term, proj = term[2][0], ("v:Some",) + proj[1:]
             continue
         if k == "phi":
-            return ("phi", tuple(_dedup([project(t, proj) for t in term[1]])))
+            alts = [project(t, proj) for t in term[1]]
+            live = [a for a in alts if a != NEVER]
+            if not live:
+                return NEVER
+            if len(live) < len(alts) and len(_dedup(live)) == 1:
+                return _dedup(live)[0]
+            return ("phi", tuple(_dedup(live)))
         if k == "ret":
             return ("ret", term[1], project(term[2], proj), term[3], term[4])
         if k == "proj":
